@@ -1193,7 +1193,7 @@ func main() {
 			"cache.notifyDeletion", "cache.notifyAtomicDeletion", "cache.evictNode", "cache.evictNodeBySize", "cache.InvalidateAll", "cache.runTask", "cache.getTask",
 			"cache.putTask", "cache.makeRetired", "cache.makeDead", "cache.onAccess", "cache.expireNodes", "cache.evictNodes", "cache.climb"},
 		{"CacheLoad", "cache.refreshKey", "cache.Get", "cache.afterDeleteCall", "cache.bulkRefreshKeys", "cache.BulkGet", "cache.wrapLoad", "cache.Refresh", "cache.BulkRefresh"},
-		{"CacheMaint", "cache.afterRead", "cache.CleanUp", "cache.shouldDrainBuffers", "cache.skipReadBuffer", "cache.afterWriteTask", "cache.scheduleAfterWrite",
+		{"CacheMaint", "init", "cache.afterRead", "cache.CleanUp", "cache.shouldDrainBuffers", "cache.skipReadBuffer", "cache.afterWriteTask", "cache.scheduleAfterWrite",
 			"cache.scheduleDrainBuffers", "cache.drainBuffers", "cache.performCleanUp", "cache.rescheduleCleanUpIfIncomplete", "cache.maintenance", "cache.drainReadBuffer",
 			"cache.drainWriteBuffer", "cache.periodicCleanUp", "cache.SetMaximum", "cache.GetMaximum", "cache.WeightedSize", "cache.StopAllGoroutines"},
 	}
